@@ -499,10 +499,9 @@ qb_log_target_format(int32_t target,
 
 	if (output_buffer_idx > 0 &&
 	    output_buffer[output_buffer_idx - 1] == '\n') {
-		output_buffer[output_buffer_idx - 1] = '\0';
-	} else {
-		output_buffer[output_buffer_idx] = '\0';
+		output_buffer_idx--;
 	}
+	output_buffer[output_buffer_idx] = '\0';
 
 	/* Indicate truncation */
 	if (t->ellipsis && truncated && output_buffer_idx >= 3) {
